@@ -234,6 +234,9 @@ func runParked(res *caseResult, idx int, dir, tier string, rnd *rand.Rand) {
 			}
 			if imm && committed {
 				res.count("parked_with_immutable_memdb_and_committed_table", 1)
+				// the table file of the parked generation is part of the family's version now (and the generation is
+				// still attached as immutable memory database): the labelling tracker has to know the file
+				r.track.flushEnd(target.FamilyTime(), 0)
 			}
 			inside := func(tag string) {
 				nq := 1 + rnd.Intn(3)
@@ -562,6 +565,10 @@ func runFree(res *caseResult, idx int, dir, tier string, rnd *rand.Rand) {
 			for k, v := range ackGen {
 				gens[k] = v
 			}
+			// a generation whose table file may already be committed although its ack callback has not run yet
+			for k, v := range flushing {
+				gens[k] = append(append([][]node.Point(nil), gens[k]...), v)
+			}
 			mu.Unlock()
 			if ov {
 				overlapping++
@@ -586,12 +593,10 @@ func runFree(res *caseResult, idx int, dir, tier string, rnd *rand.Rand) {
 				class = "C11/query-error/during-flush/" + normErr(qr.Err)
 			default:
 				explained := false
-				if ackOv {
-					for _, list := range gens {
-						for _, gen := range list {
-							if explainedByDoubleRead(r, q, gen) {
-								explained = true
-							}
+				for _, list := range gens {
+					for _, gen := range list {
+						if !explained && explainedByDoubleRead(r, q, gen) {
+							explained = true
 						}
 					}
 				}
